@@ -440,8 +440,26 @@ func (vx *Vaxis) ClipboardPush(b string)
   modifies nothing
 
 -- Every sequence the parser can deliver (C02's csiDispatch postcondition): inner parameter lists are non-empty.
+-- events handed to the application (and to start-up, which turns capability events into capability flags) are a ghost
+-- log; the channel they travel through is not modelled
+func (vx *Vaxis) PostEventBlocking(ev Event)
+  modifies nothing
+  logs posted: ev
+
+-- a DEC mode report (CSI ? mode ; status $ y) establishes the capability only when the status is "set" or "reset"
+-- (1, 2): not recognised (0) and permanently set/reset (3, 4) establish nothing (C07)
+pred IsRPM(seq ansi.Sequence) = typeis(seq, "ansi.CSI") && unbox(seq, "ansi.CSI").Final == 121 && len(unbox(seq, "ansi.CSI").Parameters) >= 2
+pred RPMMode(seq ansi.Sequence) int = unbox(seq, "ansi.CSI").Parameters[0][0]
+pred RPMStatus(seq ansi.Sequence) int = unbox(seq, "ansi.CSI").Parameters[1][0]
 func (vx *Vaxis) handleSequence(seq ansi.Sequence)
   requires wf: typeis(seq, "ansi.CSI") ==> CSIWF(unbox(seq, "ansi.CSI"))
+  ensures C07_rpm_no: (IsRPM(seq) && RPMStatus(seq) != 1 && RPMStatus(seq) != 2) ==> loglen("posted") == old(loglen("posted"))
+  ensures C07_rpm_2027: (IsRPM(seq) && RPMMode(seq) == 2027 && (RPMStatus(seq) == 1 || RPMStatus(seq) == 2)) ==>
+        (loglen("posted") == old(loglen("posted")) + 1 && typeis(logat("posted", old(loglen("posted"))), "vaxis.unicodeCoreCap"))
+  ensures C07_rpm_2026: (IsRPM(seq) && RPMMode(seq) == 2026 && (RPMStatus(seq) == 1 || RPMStatus(seq) == 2)) ==>
+        (loglen("posted") == old(loglen("posted")) + 1 && typeis(logat("posted", old(loglen("posted"))), "vaxis.synchronizedUpdates"))
+  ensures C07_rpm_2031: (IsRPM(seq) && RPMMode(seq) == 2031 && (RPMStatus(seq) == 1 || RPMStatus(seq) == 2)) ==>
+        (loglen("posted") == old(loglen("posted")) + 1 && typeis(logat("posted", old(loglen("posted"))), "vaxis.notifyColorChange"))
 @*/
 
 /*@
@@ -743,8 +761,11 @@ func (vx *Vaxis) showCursor() string
   tokens
   modifies nothing
   ownghosts -- the buffer it fills is its own: bytes.NewBuffer returns a new one
-  ensures C01_show: mode(25) == 1 && modeskept(25) && pen() == old(pen())
+  ensures C01_show: mode(25) == 1 && mode(-3) == vx.cursorNext.style && modeskept(25, -3) && pen() == old(pen())
 
+pred FlushShows(w *writer, n int) = (n != 0) ? (w.vx.cursorNext.visible && w.vx.cursorLast.visible)
+   : (!(!w.vx.cursorNext.visible && w.vx.cursorLast.visible)
+      && (w.vx.cursorNext.row != w.vx.cursorLast.row || w.vx.cursorNext.col != w.vx.cursorLast.col || w.vx.cursorNext.style != w.vx.cursorLast.style))
 -- Flush. With buffered output: the pen is reset, the cursor is shown again iff it was showing and still should, the
 -- synchronized update is ended. Without: only the cursor is adjusted (hidden if it should no longer show; shown at
 -- its new place or shape if it should). The buffer is empty afterwards; no other mode is touched.
@@ -752,7 +773,9 @@ func (w *writer) Flush() (n int, err error)
   tokens
   modifies nothing
   requires wf: WriterWF(w)
-  ensures modes: modeskept(25, 2026)
+  ensures modes: modeskept(25, 2026, -3)
+  -- the cursor's shape (DECSCUSR, pseudo mode -3) is written exactly when the cursor is shown again
+  ensures C01_shape:  mode(-3) == (FlushShows(w, old(blen(w.buf))) ? w.vx.cursorNext.style : old(mode(-3)))
   ensures C01_empty:  blen(w.buf) == 0
   ensures C01_reset:  old(blen(w.buf)) != 0 ==> (NoStyle(pen()) && pen().Hyperlink == old(pen().Hyperlink))
   ensures C01_sync:   mode(2026) == ((old(blen(w.buf)) != 0 && w.vx.caps.synchronizedUpdate) ? 0 : old(mode(2026)))
@@ -794,7 +817,7 @@ func (vx *Vaxis) enterAltScreen()
   tokens
   modifies vx.tw.vx.refresh
   requires WriterWF(vx.tw) && vx.tw.vx == vx
-  ensures C04_alt: mode(1049) == 1 && modeskept(1049, 25, 2026)
+  ensures C04_alt: mode(1049) == 1 && modeskept(1049, 25, 2026, -3)
   ensures wf: WriterWF(vx.tw) && blen(vx.tw.buf) == 0
   ensures C04_hide: mode(25) == ((vx.cursorNext.visible && vx.cursorLast.visible) ? 1 : 0)
 
@@ -802,9 +825,9 @@ func (vx *Vaxis) exitAltScreen()
   tokens
   modifies vx.cursorNext.visible
   requires WriterWF(vx.tw) && vx.tw.vx == vx
-  ensures C04_alt: mode(1049) == 0 && modeskept(1049, 25, 2026)
+  ensures C04_alt: mode(1049) == 0 && modeskept(1049, 25, 2026, -3)
   ensures wf: WriterWF(vx.tw) && blen(vx.tw.buf) == 0
-  ensures C04_show: mode(25) == 1 && !vx.cursorNext.visible
+  ensures C04_show: mode(25) == 1 && !vx.cursorNext.visible && mode(-3) == old(mode(-3))
 @*/
 
 /*@
@@ -821,6 +844,8 @@ func (vx *Vaxis) Suspend() error
   ensures C04_caps: vx.caps == old(vx.caps) && vx.disableMouse == old(vx.disableMouse)
   -- the cursor is showing when Suspend returns, whatever the application and the writer's prologue did to it
   ensures C04_cursor: mode(25) == 1
+  -- and it has the shape the user asked for (or the default), whatever shapes the application showed
+  ensures C04_shape: mode(-3) == vx.userCursorStyle
 
 -- a second Close is harmless: nothing is written
 func (vx *Vaxis) Close()
@@ -829,6 +854,7 @@ func (vx *Vaxis) Close()
   ensures C04_idem: old(vx.closed) ==> modeskept()
   ensures C04_closed: vx.closed
   ensures C04_cursor: !old(vx.closed) ==> mode(25) == 1
+  ensures C04_shape: !old(vx.closed) ==> mode(-3) == vx.userCursorStyle
   ensures C04_off: !old(vx.closed) ==> ((forall m in -1..10000: (Tracked(m) && StartMode(vx, m)) ==> mode(m) == 0) && mode(1049) == 0
                                          && mode(-2) == old(mode(-2)) - (vx.caps.kittyKeyboard ? 1 : 0))
 @*/
